@@ -179,6 +179,11 @@ def run(ctx: Ctx):
                         'outside the model, DESIGN.md D8)']
     for f in ('DznJsonAst.process', 'DznJsonAst.parse_element', 'ElementHelper.*', 'get_class_value', 'parse_* (33)'):
         ctx.functions[f'dznpy.json_ast.{f}'] = 'executed symbolically on every malformed document'
+    # unbounded part: ANY JSON value (any shape / size / nesting) on every parser function, parse_element, process;
+    # the out-event rule for events with any number of parameters
+    from props import parse_unbounded
+    parse_unbounded.run_any_json(ctx)
+    parse_unbounded.run_out_event_rule(ctx)
     jobs = []
     Nplain = lambda k: k
     docs = D.documents()
@@ -224,6 +229,12 @@ def make_replay(ctx, o):
 
 
 def native_search(ctx, o):
+    import re
+    m = re.match(r'[^:]*:any-json\.([A-Za-z_]+)', o.id)
+    if m:
+        return {'script': 'native/replay_parse.py', 'input': {'function': m.group(1), 'mode': 'any'}}
+    if ':json_ast.parse_event' in o.id:
+        return {'script': 'native/replay_parse.py', 'input': {'function': 'parse_event'}}
     docs = D.documents()
     inputs = []
     for dn in docs:
